@@ -4,6 +4,7 @@ from vlib.core import Case, hx
 from vlib import bip39
 
 ID = "C02"
+THOROUGH_ROUNDS = 1
 RULE = ("op mn.seed <phrase> <passphrase>: all five phrase lengths, layout variants of the phrase, passphrases: empty, ASCII, "
         "precomposed/decomposed pairs, full-width/ASCII pairs, ligatures, Hangul, combining marks in non-canonical order, astral plane; "
         "every code point with an NFKD mapping or non-zero combining class alone between ASCII letters (all below U+0250, stratified sample above; thorough: all); code points restricted to those assigned in Unicode 14.0 (python unicodedata) — the crate ships Unicode 16 tables; "
@@ -48,7 +49,7 @@ def gen(rng, tier):
         ws = bip39.rand_phrase(rng, [12, 15, 18, 21, 24][i % 5])
         pw = rand_pass(rng)
         assert assigned14(pw)
-        meta = {"group": i}
+        meta = {"group": "%d-%d" % (i, rng.getrandbits(48))}
         cases.append(Case("mn.seed %s %s" % (hx(" ".join(ws)), hx(pw)), tags=("random", "words:%d" % len(ws)), meta=meta))
         # same words, different layout: same seed
         lay = "\t".join(ws) + "\n" if rng.random() < 0.5 else "  " + "   ".join(ws)
